@@ -32,7 +32,8 @@ def _init_worker(modname, scratch_root):
     _SCRATCH = scratch_root
 
 
-class CaseTimeout(Exception):
+class CaseTimeout(BaseException):
+    # a BaseException, so that a harness's own `except Exception` around an implementation call cannot swallow it
     pass
 
 
@@ -85,7 +86,15 @@ def _run_one_inner(case):
     return r
 
 
+def _run_chunk(chunk):
+    return [_run_one(j) for j in chunk]
+
+
 def run_cases(modname, cases, workers, scratch_root):
+    """Run every case; a worker process that dies (killed by a signal, out of memory) must not stall the check:
+    the cases of its chunk are re-run one by one in fresh single-use processes, and a case that kills its process
+    again is recorded as a disagreement naming the case."""
+    import concurrent.futures as cf
     jobs = list(enumerate(cases))
     if workers <= 1 or len(jobs) < 4:
         _init_worker(modname, scratch_root)
@@ -93,9 +102,45 @@ def run_cases(modname, cases, workers, scratch_root):
         common.close_driver()
         return res
     ctx = multiprocessing.get_context('fork')
-    with ctx.Pool(workers, initializer=_init_worker, initargs=(modname, scratch_root)) as pool:
-        res = pool.map(_run_one, jobs, chunksize=max(1, len(jobs) // (workers * 4)))
-    return res
+    size = max(1, len(jobs) // (workers * 4))
+    chunks = [jobs[i:i + size] for i in range(0, len(jobs), size)]
+    results = {}
+    pending = list(chunks)
+    lost = []
+    while pending:
+        batch, pending = pending, []
+        try:
+            with cf.ProcessPoolExecutor(workers, mp_context=ctx, initializer=_init_worker,
+                                        initargs=(modname, scratch_root)) as ex:
+                futs = {ex.submit(_run_chunk, ch): ch for ch in batch}
+                for fut in cf.as_completed(futs):
+                    ch = futs[fut]
+                    try:
+                        for r in fut.result():
+                            results[r.index] = r
+                    except cf.process.BrokenProcessPool:
+                        lost.append(ch)
+                    except Exception as e:      # noqa: result could not be transferred
+                        lost.append(ch)
+        except cf.process.BrokenProcessPool:
+            pass
+        # chunks whose results never arrived because some worker died: redo them case by case, isolated
+        redo = [j for ch in lost for j in ch if j[0] not in results]
+        lost = []
+        for j in redo:
+            try:
+                with cf.ProcessPoolExecutor(1, mp_context=ctx, initializer=_init_worker,
+                                            initargs=(modname, scratch_root)) as ex1:
+                    for r in ex1.submit(_run_chunk, [j]).result(timeout=4 * CASE_TIMEOUT):
+                        results[r.index] = r
+            except Exception as e:              # noqa: BrokenProcessPool, TimeoutError
+                r = CaseResult(False, detail='the process running this case died or hung (%s: %s) - the implementation '
+                                             'crashed the interpreter or exhausted memory on this input'
+                               % (type(e).__name__, e), violates=None)
+                r.index = j[0]
+                r.wall = 0.
+                results[j[0]] = r
+    return [results[i] for i, _ in jobs]
 
 
 def load_corpus(pid):
